@@ -297,7 +297,7 @@ def c12(tier, seed):
     t0 = time.time()
     res = driver.RunResult()
     q = tier == "quick"
-    pipegen_step(res, "C12", tier, seed, "plain20-O0", 12 if q else 1, 300 if q else 5000, enumerate_k=True)
+    pipegen_step(res, "C12", tier, seed, "plain20-O0", 12 if q else 1, 250 if q else 4000, enumerate_k=True)
     if not res.harness_error:
         driver.run_family(res, "C12", "fam_coro", "fib-asan", 20000 if q else 400000, seed, tier, cells="task-coroutine,await-lazy-task")
     return driver.finish("C12", tier, seed, "exploration", res,
@@ -313,7 +313,7 @@ def c05(tier, seed):
     t0 = time.time()
     res = driver.RunResult()
     q = tier == "quick"
-    pipegen_step(res, "C05", tier, seed, "plain20-O0", 16 if q else 1, 250 if q else 4000, enumerate_k=True)
+    pipegen_step(res, "C05", tier, seed, "plain20-O0", 12 if q else 1, 250 if q else 4000, enumerate_k=True)
     for s in ([Step("fam_exec", "fib-asan", 60000, 1500000), Step("fam_core", "fib-asan", 20000, 400000, cells="-exec"),
                Step("fam_coro", "fib-asan", 20000, 400000, cells="stopped-target,future-coroutine/live"),
                Step("fam_exec", "thr-tsan", 2000, 60000)]):
@@ -333,7 +333,7 @@ def c20(tier, seed):
     t0 = time.time()
     res = driver.RunResult()
     q = tier == "quick"
-    pipegen_step(res, "C20", tier, seed, "plain20-O0", 16 if q else 1, 250 if q else 4000, enumerate_k=False)
+    pipegen_step(res, "C20", tier, seed, "plain20-O0", 12 if q else 1, 250 if q else 4000, enumerate_k=False)
     if not res.harness_error and not q:
         pipegen_step(res, "C20", tier, seed, "plain20", 3, 1500, enumerate_k=False)
         pipegen_step(res, "C20", tier, seed, "plain17", 3, 1500, enumerate_k=False)
@@ -353,8 +353,68 @@ def c20(tier, seed):
                          min_distinct=100, t_start=t0)
 
 
+ALL_FIBER_FAMS = ["fam_core", "fam_exec", "fam_when", "fam_wait", "fam_shared", "fam_wg", "fam_cmutex", "fam_coro"]
+
+
+def c03(tier, seed):
+    t0 = time.time()
+    res = driver.RunResult()
+    q = tier == "quick"
+    per = 14000 if q else 600000
+    for fam in ALL_FIBER_FAMS:
+        if res.harness_error:
+            break
+        driver.run_family(res, "C03", fam, "fib-asan", per, seed, tier, propfilter=False)
+    if not res.harness_error:
+        pipegen_step(res, "C03", tier, seed, "asan20", 60 if q else 4, 100 if q else 1500, enumerate_k=True)
+    for fam in (["fam_core", "fam_shared", "fam_when"] if q else ALL_FIBER_FAMS):
+        if res.harness_error:
+            break
+        driver.run_family(res, "C03", fam, "thr-asan", 1500 if q else 50000, seed, tier, propfilter=False)
+    return driver.finish("C03", tier, seed, "fault_enumeration", res,
+                         (FIBER_RULE % "the racing parties overlapped (family-specific rule, see the checks of C01, C06-C16)") +
+                         " Every fiber case ends with three lifecycle oracles: tracked payload/functor objects alive == 0 with intact "
+                         "canaries, operator new/delete balance == 0 (an imbalance must repeat on an identical re-run), and ASan/UBSan; "
+                         "LeakSanitizer runs at the end of every batch. " + PIPEGEN_RULE +
+                         "For C03 the generated programs run under ASan with tracked captures in every functor.",
+                         ASSUME_FIBER + ["rejection points (k-th Submit) are enumerated completely per generated program; drop points of handles and "
+                                         "Stop/HardStop moments in the fiber families are sampled"],
+                         min_distinct=1000, t_start=t0)
+
+
+def c04(tier, seed):
+    t0 = time.time()
+    res = driver.RunResult()
+    q = tier == "quick"
+    per = 2500 if q else 60000
+    for fam in ALL_FIBER_FAMS:
+        if res.harness_error:
+            break
+        driver.run_family(res, "C04", fam, "thr-tsan", per, seed, tier, propfilter=False)
+    if not q:
+        for fam in ALL_FIBER_FAMS:
+            if res.harness_error:
+                break
+            driver.run_family(res, "C04", fam, "off-tsan", per, seed + 1, tier, propfilter=False)
+    rule = ("cases = (cell, index) as in the fiber engines, here executed by real threads: THREAD fault backend (random 1-2000 ns "
+            "sleeps before/after every atomic, mutex and condition-variable operation) under gcc ThreadSanitizer; thorough also "
+            "without fault injection. In every scenario the producer thread writes a plain payload immediately before the "
+            "library operation and the observer reads it immediately on observing completion; monitors use relaxed atomics only, "
+            "so the library's own edge is the only happens-before path. Deciding oracle: ThreadSanitizer report blocks "
+            "(__tsan_on_report), attributed to the case and keyed by the first library frame; distinct = distinct client-visible "
+            "observation hashes per cell; non-trivial = the racing calls overlapped in logical time.")
+    return driver.finish("C04", tier, seed, "exploration", res, rule,
+                         ["ThreadSanitizer observes executions on x86-TSO: non-SC outcomes of the atomics themselves are out of reach",
+                          "under -fsanitize=thread the library compiles the acq_rel branch of AtomicCounter::SubEqual (YACLIB_TSAN); the fence-based production branch is not observed",
+                          "libstdc++'s exception_ptr reference count is not instrumented: reports whose stack contains exception_ptr::_M_release/_M_addref are suppressed",
+                          "AtomicEvent (src/util/atomic_event.cpp) is dead code in every configuration (YACLIB_FUTEX is hard-set to 0)"],
+                         min_distinct=500, t_start=t0)
+
+
 PLANS = {
     "C01": c01,
+    "C03": c03,
+    "C04": c04,
     "C20": c20,
     "C02": c02,
     "C05": c05,
